@@ -21,6 +21,10 @@ const PCHAR: &[u8] = b"abcXYZ019-._~!$&'()*+,;=:@";
 const HIGH: [&[u8]; 12] = [b"\xc3\xa9", b"\xe2\x82\xac", b"\xf0\x9f\x98\x80", b"\xc2\x80", b"\xef\xbf\xbd", b"\xc3", b"\xa9", b"\xff",
                            b"\xc0\xaf", b"\xed\xa0\x80", b"\xf4\x90\x80\x80", b"\xe9"];
 
+const VERSIONS: [&[u8]; 18] = [b"HTTP/1.0", b"HTTP/1.01", b"HTTP/01.1", b"HTTP/001.1", b"HTTP/+1.1", b"HTTP/1.+1", b"HTTP/1.10", b"HTTP/1.1x",
+                               b"http/1.1", b"HTTP/2", b"HTTP/2.0", b"HTTP/1,1", b"HTTP/11", b"HTTP/1.", b"HTTP/.1", b"HTTP/1.1.1", b"HTTPS/1.1",
+                               b"HTTP/1.1\t"];
+
 pub fn gen_head(r: &mut StdRng) -> Vec<u8> {
     let mut h = pick(r, TCHAR, 1, 8);
     h.push(b' ');
@@ -45,7 +49,14 @@ pub fn gen_head(r: &mut StdRng) -> Vec<u8> {
             h.extend(pick(r, b"abc=&", 0, 3));
         }
     }
-    h.extend(b" HTTP/1.1\r\n");
+    if r.gen_bool(0.06) {
+        // a version that is not the literal HTTP/1.1, including the ones a numeric comparison would let through
+        h.push(b' ');
+        h.extend(*VERSIONS.choose(r).unwrap());
+        h.extend(b"\r\n");
+    } else {
+        h.extend(b" HTTP/1.1\r\n");
+    }
     let maxf = if r.gen_bool(0.1) { 40 } else { 4 };
     for _ in 0..r.gen_range(0..=maxf) {
         h.extend(pick(r, TCHAR, 1, 12));
